@@ -1,5 +1,9 @@
-"""C16 - coarse graining: spatial_average, gaussian_blurring, time_average (E1)."""
+"""C16 - coarse graining: spatial_average, gaussian_blurring, time_average (E1).
+
+Round 4 subs: C16.forms (storage types of the property / condition arrays, documented argument forms, options that are ignored in a
+mode), C16.zeros (exact zeros in the value alphabets, a particle exactly on a grid node / a box face), C16.sequence (call words)."""
 import itertools
+import json
 import os
 from decimal import Decimal
 
@@ -9,7 +13,9 @@ from mc import alphabets as A
 from mc.harness import Result, Sub
 from mc.ref.base import frac_tie_margin, mk_snap, write_neighbor_file
 from mc.ref import cgorder as G
+from mc.ref import c03x as X3
 from mc.ref import c16x as X
+from mc.ref import c16y as Y
 
 ASSUMPTIONS = [
     "spatial_average: the neighbour file lists every particle once per frame (ids 1-based), coordination numbers <= Nmax "
@@ -27,9 +33,44 @@ ASSUMPTIONS = [
     "passed equal to the largest coordination number); coordination numbers never exceed Nmax; output files (np.save) must hold the "
     "returned arrays; gaussian_blurring called without sigma / ppp / gaussian_cut uses the documented defaults 2.0 / periodic in every "
     "direction / 6.0",
+    "C16.forms: the statement speaks of real / complex per-particle properties, not of float64: a property stored as float32 / complex64 is averaged "
+    "within 2e-6 (relative to the input scale); integer-valued properties (int64 / int32 / uint8 counts, 0/1 or bool indicators) have the same means "
+    "as their float64 copies (KNOWN_OPEN: the unchanged tree truncates / raises for spatial_average, see the top of the check); the condition of "
+    "gaussian_blurring is documented as 'type should be float': complex conditions are NOT demanded (the library discards the imaginary part with a "
+    "ComplexWarning); `ppp` is 'setting 1 for yes and 0 for no': any sequence of 0/1 (list, tuple, bool / float array); for a two-dimensional system "
+    "only the first two entries of ppp are used (the documented default has three); ngrids may be a list / tuple; gaussian_cut = 0 means an empty "
+    "neighbourhood (all grid values 0), not the default; dt / period are python or numpy float64 numbers (a float32 dt is not demanded: 100 * "
+    "float32(0.002) is not 0.2)",
+    "C16.forms (L9, absolute scale): spatial_average is linear (values x 2^-33 / 2^27 -> means scaled exactly); gaussian_blurring with box, "
+    "coordinates, sigma and cutoff dilated by s = 2^-33 / 2^27 returns the grid x s and the field / s (normalised Gaussian 1/sqrt(2 pi sigma^2)); "
+    "time_average with dt = 2e-18 / 2e6 (frame interval 2e-16 / 2e8) and timesteps offset by 2e9 / 1e12 has the same windows as the rational "
+    "floor(period / interval)",
+    "C16.forms (unwrapped): particles displaced by whole box lengths along periodic axes give the same grid field (minimum-image distances)",
+    "C16.sequence: results must not depend on earlier calls in the process nor on whether the argument arrays / the Snapshots object were used "
+    "(and edited in place) before; L3 (per-frame selection masks) does not apply: none of the three routines takes a selection",
 ]
 
 RT, AT = 1e-9, 1e-11
+FT = 2e-6   # single-precision storage (float32 / complex64 input): tolerance relative to the largest input magnitude
+
+# ============================================================================================================================
+# KNOWN_OPEN - slices that expose a GENUINE DEFECT of the unchanged tree that has not been repaired yet.  They are enumerated only
+# when their name is NOT listed here (or when VERIF_IGNORE_KNOWN_OPEN=1), so the registered check stays silent.  Remove the entry
+# once the repair is committed in /repo.
+#   "C16.forms.spatial_integer": spatial_average accumulates in a copy of the input array, so an integer-valued property (0/1
+#       indicator, integer counts, bool) is averaged in INTEGER arithmetic: scalars are silently truncated (the in-place true division
+#       of a scalar element is cast back to the integer dtype), vectors / tensors raise UFuncTypeError ("Cannot cast ufunc 'divide'
+#       output from dtype('float64') to dtype('int64')"), a bool indicator comes back as all True.
+#       Witness: x = np.array([[0, 1, 2]]) with the one-frame neighbour file "1 2 2 3 / 2 1 1 / 3 0" returns [1, 0, 2]; the means over a
+#       particle and its listed neighbours are [1.0, 0.5, 2.0].
+#       Proposed repair (coarse_graining.py, spatial_average):
+#           cg_input_property = np.array(input_property, dtype=np.result_type(input_property.dtype, np.float64))
+KNOWN_OPEN = []  # "C16.forms.spatial_integer" was repaired by /repo commit f019c49 (known_findings.json: fixed)
+# ============================================================================================================================
+
+
+def is_open(name):
+    return name in KNOWN_OPEN and not os.environ.get("VERIF_IGNORE_KNOWN_OPEN")
 
 
 def gval(seed, tag, comp=0, amp=1.0):
@@ -295,6 +336,10 @@ def run_window(case):
             x[t, i] = 2.0**t * (1 + i) + 0.125 * i
             if case["kind"] == "complex":
                 x[t, i] += 1j * (3.0**t - 5 * i)
+            if case.get("zeros") and (t + i) % 3 == 0:
+                x[t, i] = 0.0   # (round 4, L4) exact zeros in the series: they count in the window mean like any other value
+    if case.get("zeros"):
+        sig["zeros"] = True
     H = np.diag([4.0, 4.0])
     pos = [[1.0 + 0.5 * i, 2.0] for i in range(N)]
     snaps = Snapshots(T, [mk_snap(pos, H, [1] * N, ts=case["t0"] + case["dstep"] * t) for t in range(T)])
@@ -558,6 +603,375 @@ def scale_window(case):
     return R
 
 
+# ======================================================================================= round 4: C16.forms (L5, L1, L7, L8)
+SP_FORMS = ["float32", "complex64", "int64", "int32", "uint8", "uint16", "bool", "x_fortran", "x_noncontiguous", "nmax_numpy", "dilate_m33", "dilate_p27"]
+BLUR_FORMS = ["cond_float32", "cond_int64", "cond_int32", "cond_uint8", "cond_uint16", "cond_bool", "cond_fortran", "ppp_list", "ppp_tuple", "ppp_bool",
+              "ppp_float", "ppp3_0", "ppp3_1", "ngrids_list", "ngrids_tuple", "ngrids_int32", "pos_float32", "pos_fortran", "sigma_int",
+              "scalars_numpy", "cut_zero_int", "cut_zero_float", "unwrapped", "dilate_m33", "dilate_p27"]
+WIN_FORMS = ["float32", "complex64", "int64", "int32", "uint8", "uint16", "bool", "period_int", "dt_numpy", "x_fortran"]
+# (L9) absolute scale of the time axis: dt of 2e-18 / 2e6 time units (interval 2e-16 / 2e8), timesteps offset by 2e9 / 1e12
+WIN_SCALES = {"scale_tiny": ("2e-18", 1000), "scale_huge": ("2e6", 1000), "t0_2e9": ("0.002", 2 * 10**9), "t0_1e12": ("0.002", 10**12)}
+
+
+def dilation(form):
+    return 2.0 ** (-33 if form.endswith("m33") else 27) if form.startswith("dilate_") else 1.0
+UNWRAP = [0, 2, -3, 4]
+
+
+def gen_forms(tier, seed):
+    q = tier == "quick"
+    for form in SP_FORMS:
+        if form in Y.INTEGER_LIKE and is_open("C16.forms.spatial_integer"):
+            continue
+        for rank in (0, 1, 2):
+            for F in (1, 2):
+                for ti in range(len(Y.FORM_TOPOS4)):
+                    yield {"kind": "spatial", "form": form, "rank": rank, "F": F, "topo": ti, "seed": seed}
+    for d in (2, 3):
+        ms = [[1] * d, [1] + [0] * (d - 1), [0] * (d - 1) + [1]] if q else A.masks(d)
+        for form in BLUR_FORMS:
+            if form.startswith("ppp3") and d == 3:
+                continue
+            for rank in ((0, 1) if q else (0, 1, 2)):
+                for m in ms:
+                    for ng in ([[3, 4]] if d == 2 else [[3, 2, 4]]):
+                        yield {"kind": "blur", "form": form, "d": d, "rank": rank, "ppp": m, "ngrids": ng, "seed": seed}
+    for form in WIN_FORMS:
+        for period in ("0.4", "0.5", "0.6", "1.0"):
+            yield {"kind": "window", "form": form, "period": period, "seed": seed}
+    for form, (dts, t0) in WIN_SCALES.items():
+        for k in ("2", "2.5", "3", "4.9", "5"):
+            yield {"kind": "window", "form": form, "dt": dts, "t0": t0, "period": str(Decimal(dts) * 100 * Decimal(k)), "seed": seed}
+
+
+def run_forms(case):
+    return {"spatial": forms_spatial, "blur": forms_blur, "window": forms_window}[case["kind"]](case)
+
+
+def forms_spatial(case):
+    from PyMatterSim.utils.coarse_graining import spatial_average
+
+    R = Result()
+    form, rank, F = case["form"], case["rank"], case["F"]
+    N = 4
+    dt = form if form in Y.NP_DTYPES else "float64"
+    frames = [Y.FORM_TOPOS4[(case["topo"] + f) % len(Y.FORM_TOPOS4)] for f in range(F)]
+    x = Y.int_values((F, N) + (3,) * rank, dt, salt=case["topo"])
+    sc = dilation(form)
+    if sc != 1.0:
+        x = x * sc      # (L9) values of order 1e-10 / 1e8: the mean scales exactly
+    if form == "x_fortran":
+        x = np.asfortranarray(x)
+    elif form == "x_noncontiguous":
+        wide = np.full((F, 2 * N) + (3,) * rank, 99.0)
+        wide[:, ::2] = x
+        x = wide[:, ::2]
+    sig = {"kind": "spatial", "form": form, "rank": rank, "multi_frame": F > 1}
+    write_neighbor_file("nl_c16f.dat", frames)
+    x0 = x.copy()
+    kw = {"Nmax": np.int64(30)} if form == "nmax_numpy" else {}
+    got = np.asarray(spatial_average(x, "nl_c16f.dat", **kw))
+    os.remove("nl_c16f.dat")
+    ref = G.ref_spatial_average(np.asarray(x0, dtype=complex if np.iscomplexobj(x0) else float), frames)
+    R.elem = F * N
+    tol = FT * 4.0 if dt in ("float32", "complex64") else AT * sc
+    if got.shape != ref.shape:
+        R.fail(f"shape {got.shape} != {ref.shape}", sig=dict(sig, clause="shape"), sub="C16.forms")
+        return R
+    if not np.allclose(got, ref, rtol=FT if dt in ("float32", "complex64") else RT, atol=tol):
+        bad = np.argwhere(~np.isclose(got, ref, rtol=FT if dt in ("float32", "complex64") else RT, atol=tol))[0]
+        f, i = int(bad[0]), int(bad[1])
+        R.fail(f"property stored as {form} ({x0.dtype}): frame {f} particle {i} neighbours {frames[f][i]}: got {np.asarray(got[f, i]).ravel()[:3].tolist()!r} "
+               f"({got.dtype}), the mean over the particle and its listed neighbours is {np.asarray(ref[f, i]).ravel()[:3].tolist()!r}",
+               sig=dict(sig, clause="mean"), sub="C16.forms")
+    if not np.array_equal(x, x0):
+        R.fail("input property modified", sig=dict(sig, clause="input_modified"), sub="C16.forms")
+    R.outcome([str(got.dtype), np.asarray(got, dtype=complex)])
+    R.nontrivial = any(len(nb) > 0 for fr in frames for nb in fr)
+    return R
+
+
+def forms_blur(case):
+    from PyMatterSim.reader.reader_utils import Snapshots
+    from PyMatterSim.utils.coarse_graining import gaussian_blurring
+
+    R = Result()
+    form, d, rank, ng, seed = case["form"], case["d"], case["rank"], case["ngrids"], case["seed"]
+    m = list(case["ppp"])
+    N = 3
+    lo = np.array(BOX[0]["lo"][:d])
+    L = np.array(BOX[0]["L"][:d])
+    pos = lo + np.array(A.generic_points(seed, N, d, tag=f"blf{d}_")) * L
+    if form == "pos_float32":
+        pos = pos.astype(np.float32).astype(float)
+    cdt = form[5:] if form.startswith("cond_") and form[5:] in Y.NP_DTYPES else "float64"
+    cond = Y.int_values((1, N) + (d,) * rank, cdt, salt=2)
+    if cdt == "float64":
+        cond = cond + 0.375
+    cond64 = np.asarray(cond, float)
+    sigma, cut = 0.5, 2.5
+    if form == "sigma_int":
+        sigma, cut = 2, 3
+    elif form.startswith("cut_zero"):
+        cut = 0 if form == "cut_zero_int" else 0.0     # (L8) an explicit zero is not 'use the default 6.0': nothing is within the cutoff
+    sc = dilation(form)
+    if sc != 1.0:
+        # (L9) box, coordinates, sigma and cutoff dilated by an exact power of two: grid x sc, field / sc
+        lo, L, pos, sigma, cut = lo * sc, L * sc, pos * sc, sigma * sc, cut * sc
+    sig = {"kind": "blur", "form": form, "d": d, "rank": rank, "masked": 0 in m}
+    pts = X.grid(np.column_stack((lo, lo + L)), ng)
+    ref, margin, nc, diff = X.blur(pts, pos, np.diag(L), np.array(m), cond64[0], float(sigma), float(cut))
+    if (cut and margin < 1e-9 * sc) or frac_tie_margin(diff, np.diag(L), np.array(m)) < 1e-9:
+        return R.screen()
+    lib_pos = pos.copy()
+    if form == "unwrapped":
+        # (L7) particle i displaced by whole cell vectors n * L along the PERIODIC axes (unwrapped xu coordinates)
+        for i in range(N):
+            for a in range(d):
+                lib_pos[i, a] += UNWRAP[(i + 2 * a + 1) % 4] * L[a] * m[a]
+    sn = mk_snap(lib_pos, np.diag(L), [1] * N, lo=lo, ts=0)
+    if form == "pos_float32":
+        sn = type(sn)(sn.timestep, sn.nparticle, sn.particle_type, sn.positions.astype(np.float32), sn.boxlength, sn.boxbounds, sn.realbounds, sn.hmatrix)
+    elif form == "pos_fortran":
+        sn = type(sn)(sn.timestep, sn.nparticle, sn.particle_type, np.asfortranarray(sn.positions), sn.boxlength, np.asfortranarray(sn.boxbounds),
+                      sn.realbounds, np.asfortranarray(sn.hmatrix))
+    snaps = Snapshots(1, [sn])
+    c = np.asfortranarray(cond) if form == "cond_fortran" else cond
+    ppp = np.array(m)
+    ngrids = np.array(ng)
+    if form == "ppp_list":
+        ppp = list(m)
+    elif form == "ppp_tuple":
+        ppp = tuple(m)
+    elif form == "ppp_bool":
+        ppp = np.array(m, dtype=bool)
+    elif form == "ppp_float":
+        ppp = np.array(m, dtype=float)
+    elif form.startswith("ppp3"):
+        ppp = np.array(m + [int(form[-1])])    # (L1) the third entry of ppp is not used for a two-dimensional system (documented default: 3 entries)
+    elif form == "ngrids_list":
+        ngrids = list(ng)
+    elif form == "ngrids_tuple":
+        ngrids = tuple(ng)
+    elif form == "ngrids_int32":
+        ngrids = np.array(ng, dtype=np.int32)
+    if form == "scalars_numpy":
+        sigma, cut = np.float32(sigma), np.float32(cut)     # 0.5 and 2.5 are exact in single precision
+    c0 = np.array(c, copy=True)
+    gp, gv = gaussian_blurring(snaps, c, ngrids, sigma, ppp, cut)
+    gp, gv = np.asarray(gp), np.asarray(gv)
+    npts = int(np.prod(ng))
+    R.elem = npts
+    if gp.shape != (1, npts, d) or gv.shape != (1, npts) + cond.shape[2:]:
+        R.fail(f"shapes {gp.shape} / {gv.shape}", sig=dict(sig, clause="shape"), sub="C16.forms")
+        return R
+    scale = float(np.max(np.abs(pts))) + sc
+    if not np.allclose(gp[0], pts, rtol=0, atol=1e-10 * scale):
+        R.fail(f"argument form {form}: grid rows differ from the Cartesian product of the linspaces (x slowest)", sig=dict(sig, clause="grid"), sub="C16.forms",
+               exp=pts, obs=gp[0])
+    elif not np.allclose(gv[0], ref, rtol=RT, atol=AT / sc):
+        k = int(np.argwhere(~np.isclose(gv[0], ref, rtol=RT, atol=AT / sc))[0][0])
+        R.fail(f"argument form {form} (ppp={ppp!r}, sigma={sigma!r}, gaussian_cut={cut!r}, condition {c.dtype}): grid row {k} at {gp[0, k].tolist()}: value "
+               f"{np.asarray(gv[0, k]).ravel()[:3].tolist()!r}, reference {np.asarray(ref[k]).ravel()[:3].tolist()!r}", sig=dict(sig, clause="value"), sub="C16.forms")
+    if not np.array_equal(np.asarray(c), c0) or not np.array_equal(snaps.snapshots[0].positions, np.asarray(lib_pos, dtype=snaps.snapshots[0].positions.dtype)):
+        R.fail("input arrays modified", sig=dict(sig, clause="input_modified"), sub="C16.forms")
+    R.outcome([gp, gv])
+    R.nontrivial = nc > 0 or form.startswith("cut_zero")
+    return R
+
+
+def forms_window(case):
+    from PyMatterSim.reader.reader_utils import Snapshots
+    from PyMatterSim.utils.coarse_graining import time_average
+
+    R = Result()
+    form = case["form"]
+    T, N, dstep, dts = 6, 3, 100, case.get("dt", "0.002")
+    w = G.ref_window(case["period"], dts, dstep)
+    dt = form if form in Y.NP_DTYPES else "complex128"
+    x = Y.int_values((T, N), dt, salt=4)
+    if form == "x_fortran":
+        x = np.asfortranarray(x)
+    sig = {"kind": "window", "form": form, "even_window": w % 2 == 0}
+    period = float(case["period"])
+    step = float(dts)
+    if form == "period_int":
+        if period != int(period):
+            return R.screen()
+        period = int(period)
+    elif form == "dt_numpy":
+        step = np.float64(dts)
+    snaps = Snapshots(T, [mk_snap([[1.0 + 0.5 * i, 2.0] for i in range(N)], np.diag([4.0, 4.0]), [1] * N, ts=case.get("t0", 1000) + dstep * t) for t in range(T)])
+    x0 = x.copy()
+    res, mid = time_average(snaps, x, period, step)
+    res, mid = np.asarray(res), np.asarray(mid)
+    rows = res.shape[0]
+    R.elem = max(1, rows)
+    R.outcome({"rows": rows, "mid": mid.tolist(), "res": np.asarray(res, dtype=complex)})
+    means = G.ref_window_means(np.asarray(x0, dtype=complex), w)
+    if res.ndim != 2 or res.shape[1] != N or len(mid) != rows or rows > len(means) or rows < 1:
+        R.fail(f"series stored as {form}: result shape {res.shape}, {len(mid)} centre indices, admissible rows 1..{len(means)}", sig=dict(sig, clause="shape"),
+               sub="C16.forms")
+        return R
+    tol = dict(rtol=FT, atol=FT * 4.0) if dt in ("float32", "complex64") else dict(rtol=RT, atol=AT)
+    for n in range(rows):
+        if not np.allclose(res[n], means[n], **tol):
+            R.fail(f"series stored as {form} ({x0.dtype}), window {w}: row {n} is {res[n].tolist()!r}, the mean over frames {n}..{n + w - 1} is "
+                   f"{np.asarray(means[n]).tolist()!r}", sig=dict(sig, clause="mean"), sub="C16.forms")
+            break
+        c = n + (w - 1) / 2.0
+        if abs(float(mid[n]) - c) > 0.5 + 1e-12 or float(mid[n]) != int(mid[n]):
+            R.fail(f"window {w} starting at {n}: centre index {mid[n]!r}, central frame is {c}", sig=dict(sig, clause="centre"), sub="C16.forms")
+            break
+    if not np.array_equal(x, x0):
+        R.fail("input property modified", sig=dict(sig, clause="input_modified"), sub="C16.forms")
+    R.nontrivial = w < T
+    return R
+
+
+# ======================================================================================= round 4: C16.zeros (L4)
+def gen_zeros(tier, seed):
+    q = tier == "quick"
+    # spatial_average: every assignment of {0, 1, -1.5} (scalars) / {(0,0), (1,0), (0,-2)} (vectors) to three particles that holds at
+    # least one exact zero x all 64 topologies
+    for t in range(len(topos(3))):
+        for assign in itertools.product(range(3), repeat=3):
+            if 0 not in assign:
+                continue
+            for rank in (0, 1):
+                yield {"kind": "spatial", "topo": t, "assign": list(assign), "rank": rank, "seed": seed}
+    # gaussian_blurring: a particle EXACTLY on a grid node / on the lower corner / on the upper x face; zero condition values
+    for d in (2, 3):
+        for ng in Y.ZGRIDS[d]:
+            for place in Y.ZPLACE:
+                for ck in Y.ZCOND:
+                    for rank in ((0, 1) if q else (0, 1, 2)):
+                        for m in A.masks(d):
+                            for sg, cut in ((0.5, "in"), (2.0, "out")):
+                                yield {"kind": "blur", "d": d, "ngrids": ng, "place": place, "cond": ck, "rank": rank, "ppp": m, "sigma": sg, "cut": cut,
+                                       "seed": seed}
+    # time_average: exact zeros in the series
+    for c in gen_window("quick", seed):
+        if c["dstep"] in (100, 7):
+            yield dict(c, kind="window", vkind=c["kind"], zeros=True)
+
+
+def run_zeros(case):
+    if case["kind"] == "window":
+        return run_window(dict(case, kind=case["vkind"]))
+    return {"spatial": zeros_spatial, "blur": zeros_blur}[case["kind"]](case)
+
+
+def zeros_spatial(case):
+    from PyMatterSim.utils.coarse_graining import spatial_average
+
+    R = Result()
+    rank = case["rank"]
+    frames = [topos(3)[case["topo"]]]
+    vals = Y.ZVALS if rank == 0 else Y.ZVECS
+    x = np.array([[vals[a] for a in case["assign"]]], float)
+    sig = {"kind": "spatial", "rank": rank, "zeros": True}
+    write_neighbor_file("nl_c16z.dat", frames)
+    x0 = x.copy()
+    got = np.asarray(spatial_average(x, "nl_c16z.dat"))
+    os.remove("nl_c16z.dat")
+    ref = G.ref_spatial_average(x0, frames)
+    R.elem = 3
+    if got.shape != ref.shape:
+        R.fail(f"shape {got.shape} != {ref.shape}", sig=dict(sig, clause="shape"), sub="C16.zeros")
+        return R
+    if not np.allclose(got, ref, rtol=RT, atol=AT):
+        i = int(np.argwhere(~np.isclose(got, ref, rtol=RT, atol=AT))[0][1])
+        R.fail(f"values {x0[0].tolist()} (exact zeros count as members): particle {i} neighbours {frames[0][i]}: got {np.asarray(got[0, i]).tolist()!r}, expected "
+               f"(x_i + sum_j x_j)/(1+cn) = {np.asarray(ref[0, i]).tolist()!r}", sig=dict(sig, clause="mean"), sub="C16.zeros")
+    R.outcome(got)
+    R.nontrivial = any(len(nb) > 0 for nb in frames[0])
+    return R
+
+
+def zeros_blur(case):
+    from PyMatterSim.reader.reader_utils import Snapshots
+    from PyMatterSim.utils.coarse_graining import gaussian_blurring
+
+    R = Result()
+    d, ng, rank = case["d"], case["ngrids"], case["rank"]
+    lo, L, pos, cond = Y.zero_blur_input(case["seed"], d, ng, case["place"], case["cond"], rank)
+    ppp = np.array(case["ppp"])
+    sigma, cut = case["sigma"], Y.ZCUTS[case["cut"]]
+    sig = {"kind": "blur", "d": d, "rank": rank, "place": case["place"], "cond": case["cond"], "masked": bool((ppp == 0).any()), "zeros": True}
+    pts = X.grid(np.column_stack((lo, lo + L)), ng)
+    ref, margin, nc, diff = X.blur(pts, pos, np.diag(L), ppp, cond[0], sigma, cut)
+    if margin < 1e-9 or frac_tie_margin(diff, np.diag(L), ppp) < 1e-9:
+        return R.screen()
+    snaps = Snapshots(1, [mk_snap(pos, np.diag(L), [1] * 3, lo=lo, ts=0)])
+    gp, gv = gaussian_blurring(snaps, cond, np.array(ng), sigma, ppp, cut)
+    gp, gv = np.asarray(gp), np.asarray(gv)
+    npts = int(np.prod(ng))
+    R.elem = npts
+    if gp.shape != (1, npts, d) or gv.shape != (1, npts) + cond.shape[2:]:
+        R.fail(f"shapes {gp.shape} / {gv.shape}", sig=dict(sig, clause="shape"), sub="C16.zeros")
+        return R
+    if not np.array_equal(gp[0], pts):
+        R.fail("grid rows differ from the (dyadic, exact) Cartesian product of the linspaces", sig=dict(sig, clause="grid"), sub="C16.zeros", exp=pts, obs=gp[0])
+    elif not np.allclose(gv[0], ref, rtol=RT, atol=AT):
+        k = int(np.argwhere(~np.isclose(gv[0], ref, rtol=RT, atol=AT))[0][0])
+        r0 = float(np.linalg.norm(pts[k] - pos[0]))
+        R.fail(f"ngrids={ng} particle 0 exactly on node (1,..,1), particle 1 {case['place']}, condition {case['cond']}: grid row {k} at {gp[0, k].tolist()} "
+               f"(distance to particle 0: {r0!r}): value {np.asarray(gv[0, k]).ravel()[:3].tolist()!r}, reference {np.asarray(ref[k]).ravel()[:3].tolist()!r}",
+               sig=dict(sig, clause="value"), sub="C16.zeros")
+    R.outcome([gp, gv])
+    R.nontrivial = nc > 0
+    return R
+
+
+# ======================================================================================= round 4: C16.sequence (L6)
+def gen_sequence(tier, seed):
+    depth = 2 if tier == "quick" else 3
+    nl = len(Y.SEQ_LETTERS)
+    for Lw in range(1, depth + 1):
+        for word in itertools.product(range(nl), repeat=Lw):
+            if Lw == 3 and (len(set(word)) == 1 or len({Y.SEQ_LETTERS[k]["fn"] for k in word}) == 3):
+                continue    # three different routines: covered by the pairs
+            for share in ((False,) if Lw == 1 else (False, True)):
+                yield {"part": "sequence", "word": list(word), "share": share, "seed": seed}
+
+
+_SEQ_FRESH = {}
+
+
+def run_sequence(case):
+    R = Result()
+    seed = case["seed"]
+    names = [Y.SEQ_LETTERS[k]["id"] for k in case["word"]]
+    payload = X3.fresh_child(Y.seq_eval, case, Y.SEQ_MODS)
+    if "err" in payload:
+        R.fail(f"call sequence {names} (share={case['share']}) raised {payload['err']}", sig={"part": "sequence", "exception": True})
+        return R
+    for k in set(case["word"]):
+        if (seed, k) not in _SEQ_FRESH:
+            one = X3.fresh_child(Y.seq_eval, {"seed": seed, "word": [k], "share": False}, Y.SEQ_MODS)
+            if "err" in one:
+                R.fail(f"single call {Y.SEQ_LETTERS[k]['id']} raised {one['err']}", sig={"part": "sequence", "exception": True})
+                return R
+            _SEQ_FRESH[(seed, k)] = json.dumps(one["ok"][0], sort_keys=True)
+    states = set()
+    for pos_, (k, got) in enumerate(zip(case["word"], payload["ok"])):
+        lt = Y.SEQ_LETTERS[k]
+        g = json.dumps(got, sort_keys=True)
+        if g != _SEQ_FRESH[(seed, k)]:
+            R.fail(f"call #{pos_ + 1} ({lt['id']}: {lt['fn']}) of the sequence {names} ({'objects shared and edited in place' if case['share'] else 'fresh objects'}) "
+                   f"differs from the same call made first in a fresh process (earlier calls: {names[:pos_]})",
+                   sig={"part": "sequence", "fn": lt["fn"], "position": "later" if pos_ else "first", "share": case["share"]},
+                   exp=_SEQ_FRESH[(seed, k)][:300], obs=g[:300])
+        states.add(g[:4000])
+    R.outcome(sorted(states), nd=9)
+    R.states = len(case["word"]) + 1
+    R.transitions = len(case["word"])
+    R.elem = len(case["word"])
+    R.nontrivial = True
+    return R
+
+
 def subs(tier, seed):
     return [
         Sub("C16.spatial", gen_spatial, run_spatial,
@@ -590,4 +1004,32 @@ def subs(tier, seed):
                  "periods x intervals" + (" (every second / fourth combination in the quick tier)" if tier == "quick" else "")
                  + "; every entry compared (blurring: vectorised reference evaluated at the reported grid rows)",
             bounds={"N": SCALE_N, "grids": SCALE_GRIDS, "T": SCALE_T, "windows": SCALE_W}),
+        Sub("C16.forms", gen_forms, run_forms,
+            rule="storage types and documented argument forms (small fixed inputs, every form x rank x mask): spatial_average on N=4 with the property "
+                 "stored as " + str([f for f in SP_FORMS if not (f in Y.INTEGER_LIKE and is_open("C16.forms.spatial_integer"))]) + " (integer-like storage is "
+                 + ("GUARDED by KNOWN_OPEN: genuine defect" if is_open("C16.forms.spatial_integer") else "included") + ") x ranks 0-2 x F in {1,2} x 4 topologies (first "
+                 "frame without any neighbour); gaussian_blurring on 3 particles, grids [3,4] / [3,2,4], with " + str(BLUR_FORMS) + " (condition as float32 / "
+                 "int64 / int32 / uint8 / bool / Fortran-ordered; ppp as list / tuple / bool / float array / 3 entries for a 2D system; ngrids as list / tuple / "
+                 "int32; single-precision and Fortran-ordered positions; integer sigma and cutoff; numpy scalars; gaussian_cut = 0 / 0.0 passed explicitly; "
+                 "particles displaced by +2 / -3 / +4 box lengths along the periodic axes; everything dilated by 2^-33 / 2^27); time_average of T=6 frames with the series stored as "
+                 + str(WIN_FORMS) + " x periods 0.4 / 0.5 / 0.6 / 1.0, and with " + str(sorted(WIN_SCALES)) + " (dt 2e-18 / 2e6, timestep offsets 2e9 / 1e12) x "
+                 "periods 2 / 2.5 / 3 / 4.9 / 5 intervals; oracle: the same reference models evaluated on the float64 / complex128 values "
+                 "(tolerance 2e-6 for single-precision storage, 1e-9 otherwise); non-trivial = some neighbour / some contribution / w < T",
+            bounds={"spatial_forms": len(SP_FORMS), "blur_forms": len(BLUR_FORMS), "window_forms": len(WIN_FORMS)}),
+        Sub("C16.zeros", gen_zeros, run_zeros,
+            rule="exact zeros: spatial_average - every assignment of {0, 1, -1.5} (scalar) / {(0,0), (1,0), (0,-2)} (vector) to 3 particles with at least one "
+                 "zero x all 64 topologies; gaussian_blurring - dyadic box [-1.5,6]x[2,5.75](x[0.5,15.5]), grids " + str(Y.ZGRIDS) + " (dyadic nodes), particle 0 "
+                 "EXACTLY on node (1,..,1) (distance 0), particle 1 on the lower corner / the upper x face / generic, condition with a zero on the node particle / "
+                 "on a generic particle / in one component / none x ranks x all masks x (sigma 0.5, cut 2.7) / (2.0, 40); grid rows compared exactly; time_average - "
+                 "the C16.window alphabet (2 intervals) with exact zeros in the series; non-trivial as in the parent sub-checks",
+            bounds={"values": Y.ZVALS, "grids": Y.ZGRIDS}),
+        Sub("C16.sequence", gen_sequence, run_sequence,
+            rule=f"explicit-state search over call words of length <= {2 if tier == 'quick' else 3} over {len(Y.SEQ_LETTERS)} complete argument tuples: "
+                 "spatial_average (same file NAME with other content of equal coordination numbers; same shape / other values; scalar after vector; truncating "
+                 "Nmax), gaussian_blurring (same ngrids / other box; other mask; 3D with all defaults; 2D with all defaults; same point count / other shape, sigma, "
+                 "condition), time_average (same snapshots / other dt; same T / other spacing); every word with fresh objects and with the named arrays / "
+                 "the Snapshots object SHARED between the letters and edited in place; every word in a forked child whose library modules were re-imported; "
+                 "every call must return bit for bit what the same call returns when made first in a fresh child"
+                 + ("" if tier == "quick" else "; words of three different routines are left to the pairs"),
+            bounds={"letters": len(Y.SEQ_LETTERS), "depth": 2 if tier == "quick" else 3, "sharing": 2}),
     ]
